@@ -81,6 +81,17 @@ fn c03(r: &mut Rng, i: u64, p: &HashMap<String, String>) -> Vec<Value> {
     let mut body = g.flow(0);
     let pressure = r.chance(1, 8);
     if pressure { let mut cells = vec![]; let t = pressure_table(r, &mut cells); let at = r.below(body.len() as u64 + 1) as usize; body.insert(at, t); }
+    // a shape of its own: short cells around columns that are empty in every row, at widths around the least
+    // width the table needs side by side (every text must survive, however the room is given out)
+    if r.chance(1, 12) {
+        let ncols = r.range(3, 7) as usize; let nrows = r.range(1, 3) as usize;
+        let empty: Vec<bool> = (0..ncols).map(|c| c > 0 && c + 1 < ncols && r.chance(1, 2)).collect();
+        let mut tok = 0u32;
+        let rows: Vec<N> = (0..nrows).map(|_| N::el("tr", (0..ncols).map(|c| { if empty[c] { N::el("td", vec![]) } else { tok += 1; let n = r.range(1, 3); let s: String = (0..n).map(|k| (b'a' + ((tok as u8 * 3 + k as u8) % 26)) as char).collect(); N::el("td", vec![N::T(s)]) } }).collect())).collect();
+        let html = doc_html(&[N::el("table", rows)]);
+        let deco = *r.pick(&["plain", "rich", "trivial"]);
+        return vec![json!({"id": id("c03", i), "runs": [run(&html, r.range(1, 3 * ncols as u64 + 2), cfg(deco, vec![]), route_for(deco, r))]})];
+    }
     let html = doc_html(&body);
     let deco = *r.pick(&["plain", "rich", "trivial", "plain_nd"]);
     let mut ops = opts_c02(r);
@@ -441,7 +452,7 @@ fn c09(r: &mut Rng, i: u64, p: &HashMap<String, String>) -> Vec<Value> {
 fn c08(r: &mut Rng, i: u64, p: &HashMap<String, String>) -> Vec<Value> {
     let mut f = if r.chance(1, 3) { Feat::all() } else { Feat::notables() };
     f.linky = true;
-    f.ids = r.chance(1, 8);
+    f.ids = r.chance(1, 3);       // (name / id on links, before or after href)
     f.odd_href = r.chance(1, 2);
     f.sup = r.chance(1, 4);
     let mut g = G::new(r, f);
@@ -705,9 +716,22 @@ fn c16(r: &mut Rng, i: u64, p: &HashMap<String, String>) -> Vec<Value> {
         0 => {
             // reuse the C07 shapes with the custom decorator
             let mut v = c07(r, i, p);
+            // sometimes a decorator that styles ordered markers by nesting level (suffixes of one width): the block is
+            // rendered at level 0, its items stand alone at level 1 - what make_subblock_decorator gives their blocks
+            let mut c = c;
+            let mut c_items = c.clone();
+            if r.chance(1, 3) {
+                let base = deco["custom"]["ol_suffix"].as_str().unwrap_or(". ").to_string();
+                let alt: Vec<String> = match base.as_str() { ". " => vec![". ", ") ", "] "], "） " => vec!["） ", "］ "], ") " => vec![") ", ". ", ": "], "· " => vec!["· ", ": "], "．" => vec!["．", "："], _ => vec![] }.into_iter().map(|s| s.to_string()).collect();
+                if !alt.is_empty() {
+                    c["deco"]["custom"]["ol_suffixes"] = json!(alt); c["deco"]["custom"]["level"] = json!(0);
+                    c_items = c.clone(); c_items["deco"]["custom"]["level"] = json!(1);
+                }
+            }
             for case in v.iter_mut() {
                 case["id"] = json!(id("c16", i));
-                if let Some(runs) = case["runs"].as_array_mut() { for run in runs.iter_mut() { run["cfg"] = c.clone(); } }
+                if c["deco"]["custom"].get("ol_suffixes").is_some() { case["meta"]["nomodel"] = json!(true); }
+                if let Some(runs) = case["runs"].as_array_mut() { for (k, run) in runs.iter_mut().enumerate() { run["cfg"] = if k == 0 { c.clone() } else { c_items.clone() }; } }
             }
             // prefix widths differ from the built-in decorators: recompute the widths of the auxiliary runs in TLA+ terms is
             // not possible here, so the stand-alone widths are fixed up by the executor-independent rule below
@@ -981,6 +1005,7 @@ fn c19(r: &mut Rng, i: u64, p: &HashMap<String, String>) -> Vec<Value> {
                 *k += 1;
                 let txt: String = format!("\u{3c7}{}", char::from_u32(0x3b1 + (*k % 24) as u32).unwrap());
                 decls.push(content_decl(&txt, r.chance(1, 3)));
+                if r.chance(1, 2) { *k += 1; decls.push(json!({"prop": if r.chance(1, 4) { "bg" } else { "color" }, "val": colour_k(*k), "imp": r.chance(1, 3)})); }
                 if r.chance(1, 4) { *k += 1; decls.push(content_decl(&format!("\u{3c7}{}", char::from_u32(0x3b1 + (*k % 24) as u32).unwrap()), r.chance(1, 3))); }
             } else {
                 for _ in 0..r.range(1, 2) {
@@ -1124,7 +1149,17 @@ fn c18(r: &mut Rng, i: u64, p: &HashMap<String, String>) -> Vec<Value> {
     let style = sheet_text(&author, r, &vary);
     let full = strip_marks(&body);
     let deleted = without_deleted(&body);
-    let (h1, h2) = (css_doc_html(&style, &full), css_doc_html(&style, &deleted));
+    let (mut h1, mut h2) = (css_doc_html(&style, &full), css_doc_html(&style, &deleted));
+    // a repeated <body> start tag: its class / id do not replace those of the first tag, so a rule that names
+    // them (appended to the sheet as text; it selects nothing) hides nothing
+    if r.chance(1, 10) {
+        let extra = "\n.gone { display: none } body.gone > * { display: none }";
+        for h in [&mut h1, &mut h2] {
+            *h = h.replacen("</style>", &format!("{}</style>", extra), 1)
+                  .replacen("<body>", &format!("<body class=\"page\">{}", if r.chance(1, 2) { "<body class=\"gone\" title=\"t\">" } else { "" }), 1)
+                  .replacen("</body>", "<body class=\"gone\" lang=\"x\"></body>", 1);
+        }
+    }
     // StripStyle(d): no <style>, no style attributes
     fn strip_style(ns: &[N]) -> Vec<N> { ns.iter().map(|n| match n { N::E(name, a, kids) => N::E(name.clone(), a.iter().filter(|(k, _)| k != "style").cloned().collect(), strip_style(kids)), o => o.clone() }).collect() }
     let h3 = css_doc_html("", &strip_style(&full));
